@@ -30,9 +30,7 @@
 (*                                                                         *)
 (* Deliberate deviations, named:                                           *)
 (*  - the ~95 standard-library packages behind a's test main are one unit  *)
-(*    "std" (key depends on -go only; with -go 1.3 they fail to type-check,*)
-(*    which fails the test main, is reported as compile errors and is not  *)
-(*    cached);                                                             *)
+(*    "std" (key depends on -go only; always analysed for facts only);     *)
 (*  - salt, analyzer names, GODEBUG, GOOS/GOARCH are constants of one      *)
 (*    history (they change only with the binary / environment);            *)
 (*  - a vetx artefact is identified with the SET of facts it holds. The    *)
@@ -134,20 +132,31 @@ Key(u, w, vx) ==
 (* What the analysis of one unit READS (its footprint) and what it yields. *)
 (* Analyse/FactsOf take only the footprint, so "the result depends on      *)
 (* component X" is syntactic: X is a field of Footprint.                   *)
-GoEff(u, w) ==      \* language version the type checker / analyses see
-  IF w.flags.go = "old" THEN "1.3"
+\* language version the type checker / the analyses see.  doUncached (since 68d8d5d): -go applies
+\* only to the packages being checked; a package analysed for its facts only (role "f") is loaded
+\* with the version of its own module.  Role "i" = named on the command line.
+GoEff(u, w, role) ==
+  IF role = "i" /\ w.flags.go = "old" THEN "1.3"
   ELSE IF u = "std" THEN "tip"
   ELSE IF w.src["m"] = 1 THEN "1.22" ELSE "1.3"
 
 Whitelisted(u, w) == CfgOpt(u, w) # "dflt"
 
-Footprint(u, w, vx) ==
+\* what the FACT analyzers read (the vetx artefact).  In this world no fact depends on the
+\* language version or on a configuration option -- an assumption of the model, and of the code:
+\* the key does not record the role, so a vetx produced in role "i" under -go 1.3 is served to
+\* role "f" (which would load the package with the module's version) and vice versa.
+FootprintF(u, w, vx) ==
   [unit  |-> u,
    files |-> Files(u, w),
-   wl    |-> Whitelisted(u, w),
-   goeff |-> GoEff(u, w),
    types |-> {<<x, Sig(x, w)>> : x \in Deps[u]},
    facts |-> UNION {vx[x] : x \in Deps[u]}]
+
+\* what the full analysis of a package named on the command line reads (the results artefact)
+FootprintR(u, w, vx) ==
+  [f     |-> FootprintF(u, w, vx),
+   wl    |-> Whitelisted(u, w),
+   goeff |-> GoEff(u, w, "i")]
 
 OwnFacts(fp) ==
   CASE fp.unit = "b" -> IF <<"b.go", 1>> \in fp.files THEN {"b.nonnil"} ELSE {"b.depr"}
@@ -157,9 +166,10 @@ OwnFacts(fp) ==
 FactsOf(fp) == OwnFacts(fp) \cup fp.facts
 
 \* unfiltered problems (the "results" artefact; check selection happens later)
-Analyse(fp) ==
+Analyse(fr) ==
+  LET fp == fr.f IN
   CASE fp.unit \in {"a", "at"} ->
-         (IF fp.wl THEN {} ELSE {"a.st1001"})
+         (IF fr.wl THEN {} ELSE {"a.st1001"})
          \cup (IF "b.nonnil" \in fp.facts THEN {"a.sa4023"} ELSE {})
          \cup (IF "b.depr" \in fp.facts THEN {"a.sa1019b"} ELSE {})
          \cup (IF "d.depr" \in fp.facts THEN {"a.sa1019d"} ELSE {})
@@ -167,8 +177,8 @@ Analyse(fp) ==
          \cup (IF <<"a_test.go", 1>> \in fp.files THEN {"a.test"} ELSE {})
     [] fp.unit = "b" -> {"b.own"}
     [] fp.unit = "c" ->
-         (IF fp.wl THEN {} ELSE {"c.st1001"})
-         \cup (IF fp.goeff = "1.3" THEN {} ELSE {"c.s1005"})
+         (IF fr.wl THEN {} ELSE {"c.st1001"})
+         \cup (IF fr.goeff = "1.3" THEN {} ELSE {"c.s1005"})
          \cup (IF <<"c.go", 2>> \in fp.files THEN {"c.own"} ELSE {})
          \cup (IF <<"c_t.go", 1>> \in fp.files THEN {"c.tag"} ELSE {})
     [] OTHER -> {}
@@ -176,12 +186,11 @@ Analyse(fp) ==
 Cat == [x \in {"a.st1001", "c.st1001"} |-> "ST1001"] @@ [x \in {"a.sa4023"} |-> "SA4023"]
        @@ [x \in {"a.sa1019b", "a.sa1019d"} |-> "SA1019"]
        @@ [x \in {"a.own", "a.test", "b.own", "c.own", "c.tag"} |-> "SA4000"]
-       @@ [x \in {"c.s1005"} |-> "S1005"] @@ [x \in {"std.compile"} |-> "compile"]
+       @@ [x \in {"c.s1005"} |-> "S1005"]
 
 \* lint.go: filterAnalyzerNames over (defaults <- root conf <- a conf <- -checks flag)
 Enabled(p, u, w) ==
-  IF Cat[p] = "compile" THEN TRUE
-  ELSE IF w.flags.checks = "alt" THEN Cat[p] \in {"SA4023", "SA1019", "S1005"}   \* -checks without "inherit"
+  IF w.flags.checks = "alt" THEN Cat[p] \in {"SA4023", "SA1019", "S1005"}   \* -checks without "inherit"
   ELSE IF Dir[u] = "out" THEN TRUE
   ELSE /\ ~(w.conf["root"] = "chk" /\ Cat[p] \in {"S1005", "SA4023"})
        /\ ~(Dir[u] = "a" /\ w.conf["a"] = "chk" /\ Cat[p] = "SA1019")
@@ -200,42 +209,41 @@ KeyStr(k) == [cfg |-> k.cfg, go |-> k.go, pkg |-> k.pkg, vet |-> k.vet]
 Acc0(c) == [cache |-> c,
             vx |-> [u \in Units |-> {}], raw |-> [u \in Units |-> {}],
             log |-> [u \in Units |-> "-"], keys |-> <<>>,
-            failed |-> {}, sound |-> TRUE, new |-> 0, newstd |-> 0]
+            sound |-> TRUE, new |-> 0, newstd |-> 0]
 
 \* subrunner.do for one unit; deps have been processed (vx holds their vetx)
 StepUnit(acc, u, w, init) ==
-  IF Deps[u] \cap acc.failed # {}
-  THEN [acc EXCEPT !.failed = @ \cup {u}, !.log[u] = "depfailed"]     \* genericHandle: MarkFailed, no exec
-  ELSE
-    LET k    == Key(u, w, acc.vx)
-        fp   == Footprint(u, w, acc.vx)
-        need == IF u \in init THEN {"vetx", "res"} ELSE {"vetx"}
-        have == {e \in acc.cache : e.k = k}
-        hit  == \A kd \in need : \E e \in have : e.kind = kd
-        selfFail == (u = "std" /\ w.flags.go = "old")
-        a1   == [acc EXCEPT !.failed = IF selfFail THEN @ \cup {u} ELSE @,
-                            !.keys = IF EmitKeys THEN Append(@, [u |-> u, k |-> KeyStr(k)]) ELSE @]
-    IN IF hit
-       THEN [a1 EXCEPT !.vx[u]  = (CHOOSE e \in have : e.kind = "vetx").facts,
-                       !.raw[u] = IF u \in init THEN (CHOOSE e \in have : e.kind = "res").probs ELSE {},
-                       !.sound  = @ /\ \A e \in have : e.kind \in need => e.fp = fp,
-                       !.log[u] = "hit"]
-       ELSE
-         LET facts == FactsOf(fp)
-             probs == Analyse(fp)
-             newE  == {[k |-> k, kind |-> "vetx", facts |-> facts, probs |-> {}, fp |-> fp]}
-                      \cup (IF u \in init
-                            THEN {[k |-> k, kind |-> "res", facts |-> {}, probs |-> probs, fp |-> fp]}
-                            ELSE {})
-             kinds == {e.kind : e \in newE}
-             kept  == {e \in acc.cache : ~(e.k = k /\ e.kind \in kinds)}      \* Put overwrites the index entry
-             fresh == Cardinality(kinds \ {e.kind : e \in have})
-         IN [a1 EXCEPT !.cache  = kept \cup newE,
-                       !.vx[u]  = facts,
-                       !.raw[u] = probs,
-                       !.log[u] = IF have # {} THEN "upgrade" ELSE "miss",
-                       !.new    = IF u = "std" THEN @ ELSE @ + fresh,
-                       !.newstd = IF u = "std" THEN @ + fresh ELSE @]
+  LET k    == Key(u, w, acc.vx)
+      ff   == FootprintF(u, w, acc.vx)
+      fr   == FootprintR(u, w, acc.vx)
+      need == IF u \in init THEN {"vetx", "res"} ELSE {"vetx"}
+      have == {e \in acc.cache : e.k = k}
+      hit  == \A kd \in need : \E e \in have : e.kind = kd
+      a1   == [acc EXCEPT !.keys = IF EmitKeys THEN Append(@, [u |-> u, k |-> KeyStr(k)]) ELSE @]
+  IN IF hit
+     THEN [a1 EXCEPT !.vx[u]  = (CHOOSE e \in have : e.kind = "vetx").facts,
+                     !.raw[u] = IF u \in init THEN (CHOOSE e \in have : e.kind = "res").probs ELSE {},
+                     !.sound  = @ /\ \A e \in have : e.kind \in need =>
+                                       IF e.kind = "vetx" THEN e.fp.f = ff ELSE e.fp = fr,
+                     !.log[u] = "hit"]
+     ELSE
+       LET facts == FactsOf(ff)
+           probs == Analyse(fr)
+           \* ghost field fp: what the producer read (for a vetx only the fact footprint counts)
+           newE  == {[k |-> k, kind |-> "vetx", facts |-> facts, probs |-> {},
+                      fp |-> [f |-> ff, wl |-> FALSE, goeff |-> "-"]]}
+                    \cup (IF u \in init
+                          THEN {[k |-> k, kind |-> "res", facts |-> {}, probs |-> probs, fp |-> fr]}
+                          ELSE {})
+           kinds == {e.kind : e \in newE}
+           kept  == {e \in acc.cache : ~(e.k = k /\ e.kind \in kinds)}      \* Put overwrites the index entry
+           fresh == Cardinality(kinds \ {e.kind : e \in have})
+       IN [a1 EXCEPT !.cache  = kept \cup newE,
+                     !.vx[u]  = facts,
+                     !.raw[u] = probs,
+                     !.log[u] = IF have # {} THEN "upgrade" ELSE "miss",
+                     !.new    = IF u = "std" THEN @ ELSE @ + fresh,
+                     !.newstd = IF u = "std" THEN @ + fresh ELSE @]
 
 RECURSIVE Fold(_, _, _, _, _)
 Fold(i, acc, w, req, init) ==
@@ -247,9 +255,8 @@ DoRun(c, w, pats) ==
   LET init == InitialOf(pats, w)
       req  == Closure(init)
       acc  == Fold(1, Acc0(c), w, req, init)
-      shown == UNION { {p \in acc.raw[u] : Enabled(p, u, w)} : u \in init \ acc.failed }
-  IN [acc |-> acc,
-      probs |-> shown \cup (IF "std" \in acc.failed THEN {"std.compile"} ELSE {})]
+      shown == UNION { {p \in acc.raw[u] : Enabled(p, u, w)} : u \in init }
+  IN [acc |-> acc, probs |-> shown]
 
 Cold(w, pats) == DoRun({}, w, pats).probs
 
@@ -333,7 +340,7 @@ Transparent == out.valid => out.probs = Cold(World, out.pats)
 HitOnlyIfSameInputs == out.sound
 
 \* same key => same footprint, for the entries that are in the cache together
-CacheKeyFunctional == \A e1, e2 \in cache : e1.k = e2.k => e1.fp = e2.fp
+CacheKeyFunctional == \A e1, e2 \in cache : e1.k = e2.k => e1.fp.f = e2.fp.f /\ (e1.kind = e2.kind => e1.fp = e2.fp)
 
 \* STATIC: over ALL worlds, every component the analysis reads is determined by the key.
 \* (tests/checks flags cannot influence a key or a footprint: fixed to on/dflt to visit every unit)
@@ -341,10 +348,13 @@ KeyWorlds == IF ~StaticCheck THEN {} ELSE
              { [src |-> s, conf |-> cf, flags |-> [go |-> g, tags |-> t, tests |-> "on", checks |-> "dflt"]] :
                  s \in [Pkgs -> {1, 2}], cf \in [Levels -> {"none", "opt", "chk"}],
                  g \in FlagVals.go, t \in FlagVals.tags }
+\* with tests on and ./... every unit but std is a root, so both artefacts of every unit are produced
 KeyFp(w) == LET acc == DoRun({}, w, {"all"}).acc
-            IN { <<Key(u, w, acc.vx), Footprint(u, w, acc.vx)>> : u \in {x \in Units : acc.log[x] = "miss"} }
+                init == InitialOf({"all"}, w)
+            IN { <<Key(u, w, acc.vx), "vetx", [f |-> FootprintF(u, w, acc.vx), wl |-> FALSE, goeff |-> "-"]>> : u \in Units }
+               \cup { <<Key(u, w, acc.vx), "res", FootprintR(u, w, acc.vx)>> : u \in init }
 KeyFpAll == UNION { KeyFp(w) : w \in KeyWorlds }
-KeyCoversDeps == \A x, y \in KeyFpAll : x[1] = y[1] => x[2] = y[2]
+KeyCoversDeps == \A x, y \in KeyFpAll : (x[1] = y[1] /\ x[2] = y[2]) => x[3] = y[3]
 
 TypeOK ==
   /\ src \in [Pkgs -> {1, 2}]
